@@ -134,6 +134,8 @@ pub fn generate(tier: &str, rng: &mut Rng) -> Vec<String> {
         out.push(format!("run {} {} {}", opt_tok(c), opt_tok(s), l));
     }
     out.extend(gen_e2e(tier, rng));
+    out.extend(gen_sided(tier, rng));
+    out.extend(gen_more(tier, rng));
     out
 }
 
@@ -169,14 +171,44 @@ pub fn execute(case: &str) -> String {
             }
         }
         ["e2e", c, s, e, l] => {
-            let p = |x: &str| -> Option<u128> { if x == "none" { None } else { Some(x.parse().unwrap()) } };
-            e2e_case(p(c), p(s), p(e), l.parse().unwrap())
+            let (Some(c), Some(s), Some(e), Ok(l)) = (caller(c), opt_ns(s), opt_ns(e), l.parse()) else { return "bad-case".into() };
+            e2e_case(c, s, e, l)
+        }
+        ["cli", peer, c, e, l] => {
+            let (Some(c), Some(e), Some(l)) = (caller(c), opt_ns(e), lat_ns(l)) else { return "bad-case".into() };
+            let peer = match *peer {
+                "silent" => Peer::Silent,
+                "stall" => Peer::Stall,
+                "routes" => Peer::Routes,
+                _ => return "bad-case".into(),
+            };
+            cli_case(peer, c, e, l)
+        }
+        ["srv", h, s, l] => {
+            let (Some(h), Some(s), Some(l)) = (caller(h), opt_ns(s), lat_ns(l)) else { return "bad-case".into() };
+            srv_case(h, s, l)
         }
         ["run", c, s, l] => {
-            let c: Option<u128> = if *c == "none" { None } else { Some(c.parse().unwrap()) };
-            let s: Option<u128> = if *s == "none" { None } else { Some(s.parse().unwrap()) };
-            let l: u128 = l.parse().unwrap();
+            let (Some(c), Some(s), Ok(l)) = (caller(c), opt_ns(s), l.parse()) else { return "bad-case".into() };
             run_case(c, s, l)
+        }
+        ["seq", cs, sops, eops, l] => {
+            let cs: Option<Vec<u128>> = if *cs == "-" { Some(vec![]) } else { cs.split(',').map(|x| x.parse().ok()).collect() };
+            let (Some(cs), Some(so), Some(eo), Ok(l)) = (cs, ops(sops), ops(eops), l.parse()) else { return "bad-case".into() };
+            seq_case(cs, so, eo, l)
+        }
+        ["encs", ds @ ..] if !ds.is_empty() => {
+            let mut req = tonic::Request::new(());
+            for d in ds {
+                let Ok(d) = d.parse::<u128>() else { return "bad-case".into() };
+                req.set_timeout(dur(d));
+            }
+            let vals: Vec<String> = req.metadata().get_all("grpc-timeout").iter().map(|v| hex(v.as_encoded_bytes())).collect();
+            if vals.is_empty() {
+                "absent".into()
+            } else {
+                vals.join(" ")
+            }
         }
         _ => "bad-case".into(),
     }
@@ -185,7 +217,11 @@ pub fn execute(case: &str) -> String {
 /// Drive the real `GrpcTimeout` middleware in virtual time: the caller's timeout travels as a
 /// `grpc-timeout` header written by `Request::set_timeout`; the inner service answers after
 /// `latency`.
-fn run_case(c: Option<u128>, s: Option<u128>, latency: u128) -> String {
+fn run_case(c: Caller, s: Option<u128>, latency: u128) -> String {
+    let mut treq = tonic::Request::new(());
+    if !c.apply(&mut treq) {
+        return "not-a-header-value".into();
+    }
     let rt = paused_rt();
     rt.block_on(async move {
         let inner = tower::service_fn(move |_req: http::Request<()>| async move {
@@ -194,10 +230,6 @@ fn run_case(c: Option<u128>, s: Option<u128>, latency: u128) -> String {
         });
         // as in transport::Server: RecoverError (error → trailers-only response) around GrpcTimeout
         let mut svc = tonic::service::RecoverError::new(GrpcTimeoutHook::new(inner, s.map(dur)));
-        let mut treq = tonic::Request::new(());
-        if let Some(c) = c {
-            treq.set_timeout(dur(c));
-        }
         let mut req = http::Request::new(());
         *req.headers_mut() = treq.metadata().clone().into_headers();
         // outer watchdog far beyond every deadline: a stuck future is the observable `hang`
@@ -216,26 +248,88 @@ fn run_case(c: Option<u128>, s: Option<u128>, latency: u128) -> String {
     })
 }
 
+/// The caller's deadline as a case token: `none`, a duration in ns (→ `Request::set_timeout`, or a
+/// hand-written exact value for the bare h2 client), or raw grpc-timeout header values
+/// `x<hex>[,x<hex>]*` put into the request as they are (possibly malformed, possibly several).
+#[derive(Clone)]
+enum Caller {
+    Absent,
+    Dur(u128),
+    Raw(Vec<Vec<u8>>),
+}
+
+fn caller(x: &str) -> Option<Caller> {
+    if x == "none" {
+        Some(Caller::Absent)
+    } else if x.starts_with('x') {
+        x.split(',').map(unhex).collect::<Option<Vec<_>>>().map(Caller::Raw)
+    } else {
+        x.parse().ok().map(Caller::Dur)
+    }
+}
+
+impl Caller {
+    /// false: some raw value cannot be an HTTP header value at all
+    fn apply<T>(&self, req: &mut tonic::Request<T>) -> bool {
+        match self {
+            Caller::Absent => true,
+            Caller::Dur(d) => {
+                req.set_timeout(dur(*d));
+                true
+            }
+            Caller::Raw(vals) => {
+                let mut h = std::mem::take(req.metadata_mut()).into_headers();
+                for v in vals {
+                    match HeaderValue::from_bytes(v) {
+                        Ok(hv) => {
+                            h.append("grpc-timeout", hv);
+                        }
+                        Err(_) => return false,
+                    }
+                }
+                *req.metadata_mut() = tonic::metadata::MetadataMap::from_headers(h);
+                true
+            }
+        }
+    }
+    /// header values for a client that is not tonic
+    fn by_hand(&self) -> Option<Vec<HeaderValue>> {
+        match self {
+            Caller::Absent => Some(vec![]),
+            Caller::Dur(d) => hand_timeout(*d).map(|v| vec![HeaderValue::from_str(&v).unwrap()]),
+            Caller::Raw(vals) => vals.iter().map(|v| HeaderValue::from_bytes(v).ok()).collect(),
+        }
+    }
+}
+
 // ===== end to end: the real transport stack on both sides =====
 //   e2e <caller ns|none> <Server::timeout ns|none> <Endpoint::timeout ns|none> <handler latency ns>
 // A real `transport::Server` (with `.timeout`) and a real `Channel` (with `Endpoint::timeout`) over an
 // in-memory duplex, virtual time; the caller's deadline travels as grpc-timeout.
 
+/// `None` = the handler never answers.
 #[derive(Clone)]
-struct SleepSvc(u128);
+struct SleepSvc(Option<u128>);
+
+async fn wait(l: Option<u128>) {
+    match l {
+        Some(l) => tokio::time::sleep(dur(l)).await,
+        None => std::future::pending::<()>().await,
+    }
+}
 
 impl tonic::server::NamedService for SleepSvc {
     const NAME: &'static str = "verif.Sleep";
 }
 
-struct SleepUnary(u128);
+struct SleepUnary(Option<u128>);
 impl tonic::server::UnaryService<Vec<u8>> for SleepUnary {
     type Response = Vec<u8>;
     type Future = std::pin::Pin<Box<dyn std::future::Future<Output = Result<tonic::Response<Vec<u8>>, tonic::Status>> + Send>>;
     fn call(&mut self, _r: tonic::Request<Vec<u8>>) -> Self::Future {
         let l = self.0;
         Box::pin(async move {
-            tokio::time::sleep(dur(l)).await;
+            wait(l).await;
             Ok(tonic::Response::new(vec![7]))
         })
     }
@@ -279,7 +373,11 @@ impl tokio::io::AsyncWrite for DuplexConn {
     }
 }
 
-fn e2e_case(c: Option<u128>, s: Option<u128>, e: Option<u128>, latency: u128) -> String {
+fn e2e_case(c: Caller, s: Option<u128>, e: Option<u128>, latency: u128) -> String {
+    let mut req = tonic::Request::new(vec![1u8]);
+    if !c.apply(&mut req) {
+        return "not-a-header-value".into();
+    }
     let rt = paused_rt();
     rt.block_on(async move {
         let (cli, srv) = tokio::io::duplex(64 * 1024);
@@ -287,7 +385,7 @@ fn e2e_case(c: Option<u128>, s: Option<u128>, e: Option<u128>, latency: u128) ->
         if let Some(s) = s {
             builder = builder.timeout(dur(s));
         }
-        let router = builder.add_service(SleepSvc(latency));
+        let router = builder.add_service(SleepSvc(Some(latency)));
         // one connection, then the listener stays open (an ended `incoming` starts a shutdown)
         let incoming = {
             use tokio_stream::StreamExt;
@@ -317,10 +415,6 @@ fn e2e_case(c: Option<u128>, s: Option<u128>, e: Option<u128>, latency: u128) ->
             Err(_) => return "connect-failed".to_string(),
         };
         let mut grpc = tonic::client::Grpc::new(channel);
-        let mut req = tonic::Request::new(vec![1u8]);
-        if let Some(c) = c {
-            req.set_timeout(dur(c));
-        }
         let fut = async {
             if grpc.ready().await.is_err() {
                 return "not-ready".to_string();
@@ -367,6 +461,745 @@ pub fn gen_e2e(tier: &str, rng: &mut Rng) -> Vec<String> {
                 }
             }
         }
+    }
+    out
+}
+
+// ===== which side enforces: one real tonic stack against a peer that does NOT enforce deadlines =====
+//   cli <silent|stall|routes> <caller ns|none> <Endpoint::timeout ns|none> <latency ns|never>
+//     a real `Channel` (with/without `Endpoint::timeout`), the caller's deadline set with
+//     `Request::set_timeout`, over an in-memory duplex against
+//       silent: a bare h2 server that accepts the request and sends its whole response (head, one
+//               message, trailers grpc-status 0) after `latency`, or never;
+//       stall:  a bare h2 server that sends the response head at once and the rest after `latency`, or never;
+//       routes: tonic `Routes` served by hyper's http2 connection WITHOUT `transport::Server`'s
+//               timeout layer, the handler answering after `latency`, or never.
+//   srv <grpc-timeout ns|none> <Server::timeout ns|none> <handler latency ns|never>
+//     a real `transport::Server` (with/without `.timeout`) against a bare h2 client that sends the
+//     grpc-timeout header (written by hand, not by tonic) and enforces nothing itself.
+// observed: `inner <t>` | `timeout <code> <hex message> <t>` | `pending`, `t` = virtual ns between
+// issuing the call and its completion; `pending` = not completed within HORIZON of virtual time.
+
+const HORIZON: Duration = Duration::from_secs(3600);
+
+fn opt_ns(x: &str) -> Option<Option<u128>> {
+    if x == "none" {
+        Some(None)
+    } else {
+        x.parse().ok().map(Some)
+    }
+}
+fn lat_ns(x: &str) -> Option<Option<u128>> {
+    if x == "never" {
+        Some(None)
+    } else {
+        x.parse().ok().map(Some)
+    }
+}
+fn lat_tok(l: Option<u128>) -> String {
+    match l {
+        Some(l) => l.to_string(),
+        None => "never".into(),
+    }
+}
+
+#[derive(Clone, Copy, PartialEq)]
+enum Peer {
+    Silent,
+    Stall,
+    Routes,
+}
+
+/// gRPC response pieces a bare peer writes: one message `07`, then trailers `grpc-status: 0`.
+fn ok_message() -> bytes::Bytes {
+    bytes::Bytes::from_static(&[0, 0, 0, 0, 1, 7])
+}
+fn ok_trailers() -> HeaderMap {
+    let mut t = HeaderMap::new();
+    t.insert("grpc-status", HeaderValue::from_static("0"));
+    t
+}
+
+/// A bare h2 server: no tonic code, no notion of grpc-timeout.
+async fn bare_h2_peer(io: tokio::io::DuplexStream, stall: bool, latency: Option<u128>) {
+    let Ok(mut conn) = h2::server::handshake(io).await else { return };
+    while let Some(next) = conn.accept().await {
+        let Ok((req, mut respond)) = next else { return };
+        tokio::spawn(async move {
+            let _keep_request_open = req;
+            let head = http::Response::builder()
+                .status(200)
+                .header("content-type", "application/grpc")
+                .body(())
+                .unwrap();
+            let mut stream = if stall {
+                let Ok(s) = respond.send_response(head, false) else { return };
+                wait(latency).await;
+                s
+            } else {
+                wait(latency).await;
+                let Ok(s) = respond.send_response(head, false) else { return };
+                s
+            };
+            let _ = stream.send_data(ok_message(), false);
+            let _ = stream.send_trailers(ok_trailers());
+        });
+    }
+}
+
+/// tonic `Routes` on hyper's http2 server connection: the service stack of `transport::Server`
+/// (RecoverError / GrpcTimeout) is NOT there.
+async fn routes_peer(io: tokio::io::DuplexStream, latency: Option<u128>) {
+    let routes = tonic::service::Routes::new(SleepSvc(latency));
+    let svc = hyper_util::service::TowerToHyperService::new(routes);
+    let _ = hyper::server::conn::http2::Builder::new(hyper_util::rt::TokioExecutor::new())
+        .timer(hyper_util::rt::TokioTimer::new())
+        .serve_connection(hyper_util::rt::TokioIo::new(io), svc)
+        .await;
+}
+
+fn cli_case(peer: Peer, c: Caller, e: Option<u128>, latency: Option<u128>) -> String {
+    let mut req = tonic::Request::new(vec![1u8]);
+    if !c.apply(&mut req) {
+        return "not-a-header-value".into();
+    }
+    let rt = paused_rt();
+    rt.block_on(async move {
+        let (cli, srv) = tokio::io::duplex(64 * 1024);
+        match peer {
+            Peer::Silent => drop(tokio::spawn(bare_h2_peer(srv, false, latency))),
+            Peer::Stall => drop(tokio::spawn(bare_h2_peer(srv, true, latency))),
+            Peer::Routes => drop(tokio::spawn(routes_peer(srv, latency))),
+        }
+        let mut ep = tonic::transport::Endpoint::from_static("http://[::]:50051");
+        if let Some(e) = e {
+            ep = ep.timeout(dur(e));
+        }
+        let mut cli = Some(cli);
+        let channel = match ep
+            .connect_with_connector(tower::service_fn(move |_: http::Uri| {
+                let c = cli.take();
+                async move { c.map(hyper_util::rt::TokioIo::new).ok_or_else(|| std::io::Error::other("used")) }
+            }))
+            .await
+        {
+            Ok(ch) => ch,
+            Err(_) => return "connect-failed".to_string(),
+        };
+        let mut grpc = tonic::client::Grpc::new(channel);
+        let fut = async {
+            if grpc.ready().await.is_err() {
+                return "not-ready".to_string();
+            }
+            let start = tokio::time::Instant::now();
+            let r = grpc.unary(req, "/verif.Sleep/Unary".parse().unwrap(), crate::c03::RawCodec).await;
+            let t = start.elapsed().as_nanos();
+            match r {
+                Ok(_) => format!("inner {}", t),
+                Err(st) => format!("timeout {} {} {}", st.code() as i32, hex(st.message().as_bytes()), t),
+            }
+        };
+        match tokio::time::timeout(HORIZON, fut).await {
+            Ok(o) => o,
+            Err(_) => "pending".to_string(),
+        }
+    })
+}
+
+/// A grpc-timeout value written by hand (finest unit that holds the duration exactly in 8 digits).
+fn hand_timeout(ns: u128) -> Option<String> {
+    for (u, k) in UNITS {
+        if ns % k == 0 && ns / k <= 99_999_999 {
+            return Some(format!("{}{}", ns / k, u as char));
+        }
+    }
+    None
+}
+
+fn srv_case(h: Caller, s: Option<u128>, latency: Option<u128>) -> String {
+    let Some(hv) = h.by_hand() else { return "not-a-header-value".into() };
+    let rt = paused_rt();
+    rt.block_on(async move {
+        let (cli, srv) = tokio::io::duplex(64 * 1024);
+        let mut builder = tonic::transport::Server::builder();
+        if let Some(s) = s {
+            builder = builder.timeout(dur(s));
+        }
+        let router = builder.add_service(SleepSvc(latency));
+        let incoming = {
+            use tokio_stream::StreamExt;
+            tokio_stream::iter(vec![Ok::<_, std::io::Error>(DuplexConn(srv))]).chain(tokio_stream::pending())
+        };
+        tokio::spawn(async move {
+            let _ = router.serve_with_incoming(incoming).await;
+        });
+        let fut = async {
+            let Ok((h2c, conn)) = h2::client::handshake(cli).await else { return "connect-failed".to_string() };
+            tokio::spawn(async move {
+                let _ = conn.await;
+            });
+            let Ok(mut h2c) = h2c.ready().await else { return "not-ready".to_string() };
+            let mut b = http::Request::builder()
+                .method("POST")
+                .uri("http://localhost/verif.Sleep/Unary")
+                .header("content-type", "application/grpc")
+                .header("te", "trailers");
+            for v in &hv {
+                b = b.header("grpc-timeout", v.clone());
+            }
+            let start = tokio::time::Instant::now();
+            let Ok((resp, mut send)) = h2c.send_request(b.body(()).unwrap(), false) else { return "send-failed".to_string() };
+            if send.send_data(bytes::Bytes::from_static(&[0, 0, 0, 0, 1, 1]), true).is_err() {
+                return "send-failed".to_string();
+            }
+            let resp = match resp.await {
+                Ok(r) => r,
+                Err(_) => return format!("reset {}", start.elapsed().as_nanos()),
+            };
+            let (parts, mut body) = resp.into_parts();
+            // trailers-only response: the status is in the head
+            let mut status = tonic::Status::from_header_map(&parts.headers);
+            if status.is_none() {
+                while let Some(chunk) = body.data().await {
+                    match chunk {
+                        Ok(c) => {
+                            let _ = body.flow_control().release_capacity(c.len());
+                        }
+                        Err(_) => return format!("reset {}", start.elapsed().as_nanos()),
+                    }
+                }
+                match body.trailers().await {
+                    Ok(Some(t)) => status = tonic::Status::from_header_map(&t),
+                    Ok(None) => return format!("no-trailers {}", start.elapsed().as_nanos()),
+                    Err(_) => return format!("reset {}", start.elapsed().as_nanos()),
+                }
+            }
+            let t = start.elapsed().as_nanos();
+            match status {
+                Some(st) if st.code() == tonic::Code::Ok => format!("inner {}", t),
+                Some(st) => format!("timeout {} {} {}", st.code() as i32, hex(st.message().as_bytes()), t),
+                None => format!("no-status {}", t),
+            }
+        };
+        match tokio::time::timeout(HORIZON, fut).await {
+            Ok(o) => o,
+            Err(_) => "pending".to_string(),
+        }
+    })
+}
+
+pub fn gen_sided(tier: &str, rng: &mut Rng) -> Vec<String> {
+    let thorough = tier == "thorough";
+    let mut out = Vec::new();
+    let ms = 1_000_000u128;
+    // corpus: the caller's deadline alone, against a peer that never answers / answers late
+    for peer in ["silent", "stall", "routes"] {
+        out.push(format!("cli {} {} none never", peer, 300 * ms));
+        out.push(format!("cli {} {} none {}", peer, 300 * ms, 3000 * ms));
+    }
+    out.push(format!("srv {} none never", 300 * ms));
+    let grid: Vec<Option<u128>> = vec![None, Some(20 * ms), Some(50 * ms), Some(1000 * ms)];
+    let lats_for = |ds: &[Option<u128>]| -> Vec<Option<u128>> {
+        let mut lats: Vec<u128> = vec![0, 5 * ms, 5_000 * ms];
+        for t in ds.iter().flatten() {
+            // strictly inside / outside each deadline (the instant itself is a scheduling race)
+            lats.push(*t - ms);
+            lats.push(*t + ms);
+        }
+        lats.sort();
+        lats.dedup();
+        let mut v: Vec<Option<u128>> = lats
+            .into_iter()
+            .filter(|l| !ds.iter().flatten().any(|t| t == l))
+            .map(Some)
+            .collect();
+        v.push(None);
+        v
+    };
+    for a in &grid {
+        for b in &grid {
+            for l in lats_for(&[*a, *b]) {
+                for peer in ["silent", "stall", "routes"] {
+                    out.push(format!("cli {} {} {} {}", peer, opt_tok(*a), opt_tok(*b), lat_tok(l)));
+                }
+                out.push(format!("srv {} {} {}", opt_tok(*a), opt_tok(*b), lat_tok(l)));
+            }
+        }
+    }
+    // random deadlines (whole ms) and latencies around them
+    let nrand = if thorough { 600 } else { 40 };
+    for _ in 0..nrand {
+        let t = |rng: &mut Rng| -> Option<u128> {
+            if rng.chance(1, 3) {
+                None
+            } else {
+                Some(rng.range(1, 400) as u128 * ms)
+            }
+        };
+        let a = t(rng);
+        let b = t(rng);
+        let l = match rng.below(4) {
+            0 => None,
+            1 => Some(rng.below(500) as u128 * ms),
+            _ => match [a, b].into_iter().flatten().min() {
+                Some(m) => Some(if rng.chance(1, 2) { m + rng.range(1, 3) as u128 * ms } else { m.saturating_sub(rng.range(1, 3) as u128 * ms) }),
+                None => Some(rng.below(500) as u128 * ms),
+            },
+        };
+        if let Some(l) = l {
+            if [a, b].into_iter().flatten().any(|t| t == l) {
+                continue;
+            }
+        }
+        let peer = *rng.pick(&["silent", "stall", "routes", "srv"]);
+        if peer == "srv" {
+            out.push(format!("srv {} {} {}", opt_tok(a), opt_tok(b), lat_tok(l)));
+        } else {
+            out.push(format!("cli {} {} {} {}", peer, opt_tok(a), opt_tok(b), lat_tok(l)));
+        }
+    }
+    out
+}
+
+// ===== sequences: set_timeout called several times, builder methods in any order =====
+//   seq <c1,c2,..|-> <server ops|-> <endpoint ops|-> <handler latency ns>
+// ops: comma list of t<ns> (.timeout), k<ns> (Endpoint::connect_timeout), l (Server::layer), and
+// single letters for other builder methods (see `server_op` / `endpoint_op`).  Real
+// `transport::Server` and real `Channel` over a duplex, as in `e2e`; observed as in `cli`.
+
+#[derive(Clone, Copy, PartialEq)]
+enum Op {
+    Timeout(u128),
+    ConnectTimeout(u128),
+    Layer,
+    Other(char),
+}
+
+fn ops(x: &str) -> Option<Vec<Op>> {
+    if x == "-" {
+        return Some(vec![]);
+    }
+    x.split(',')
+        .map(|o| {
+            let mut ch = o.chars();
+            let c = ch.next()?;
+            let rest = ch.as_str();
+            match c {
+                't' => rest.parse().ok().map(Op::Timeout),
+                'k' => rest.parse().ok().map(Op::ConnectTimeout),
+                'l' if rest.is_empty() => Some(Op::Layer),
+                c if rest.is_empty() && c.is_ascii_lowercase() => Some(Op::Other(c)),
+                _ => None,
+            }
+        })
+        .collect()
+}
+
+fn server_ops<L>(mut b: tonic::transport::Server<L>, ops: &[Op]) -> Option<tonic::transport::Server<L>> {
+    for op in ops {
+        b = match op {
+            Op::Timeout(t) => b.timeout(dur(*t)),
+            Op::Other('c') => b.concurrency_limit_per_connection(8),
+            Op::Other('n') => b.tcp_nodelay(true),
+            Op::Other('w') => b.initial_stream_window_size(Some(1 << 20)),
+            Op::Other('m') => b.max_concurrent_streams(Some(16)),
+            Op::Other('a') => b.accept_http1(false),
+            Op::Other('f') => b.max_frame_size(Some(32768)),
+            Op::Other('h') => b.http2_adaptive_window(Some(false)),
+            Op::Other('p') => b.tcp_keepalive(Some(Duration::from_secs(5))),
+            Op::Other('i') => b.http2_max_header_list_size(Some(16384)),
+            _ => return None,
+        };
+    }
+    Some(b)
+}
+
+fn endpoint_ops(mut ep: tonic::transport::Endpoint, ops: &[Op]) -> Option<tonic::transport::Endpoint> {
+    for op in ops {
+        ep = match op {
+            Op::Timeout(t) => ep.timeout(dur(*t)),
+            Op::ConnectTimeout(t) => ep.connect_timeout(dur(*t)),
+            Op::Other('c') => ep.concurrency_limit(8),
+            Op::Other('u') => ep.user_agent("verif/1").ok()?,
+            Op::Other('o') => ep.origin("http://origin.test".parse().unwrap()),
+            Op::Other('n') => ep.tcp_nodelay(true),
+            Op::Other('w') => ep.initial_stream_window_size(Some(1 << 20)),
+            Op::Other('b') => ep.buffer_size(Some(8)),
+            Op::Other('p') => ep.tcp_keepalive(Some(Duration::from_secs(5))),
+            Op::Other('h') => ep.http2_adaptive_window(false),
+            Op::Other('i') => ep.http2_max_header_list_size(16384),
+            _ => return None,
+        };
+    }
+    Some(ep)
+}
+
+fn seq_case(cs: Vec<u128>, sops: Vec<Op>, eops: Vec<Op>, latency: u128) -> String {
+    let mut req = tonic::Request::new(vec![1u8]);
+    for c in &cs {
+        req.set_timeout(dur(*c));
+    }
+    let rt = paused_rt();
+    rt.block_on(async move {
+        let (cli, srv) = tokio::io::duplex(64 * 1024);
+        let incoming = {
+            use tokio_stream::StreamExt;
+            tokio_stream::iter(vec![Ok::<_, std::io::Error>(DuplexConn(srv))]).chain(tokio_stream::pending())
+        };
+        macro_rules! serve {
+            ($b:expr) => {{
+                let router = $b.add_service(SleepSvc(Some(latency)));
+                tokio::spawn(async move {
+                    let _ = router.serve_with_incoming(incoming).await;
+                });
+            }};
+        }
+        // `.layer` changes the builder's type: at most two of them, anywhere in the sequence
+        let segs: Vec<&[Op]> = sops.split(|o| *o == Op::Layer).collect();
+        let Some(b0) = server_ops(tonic::transport::Server::builder(), segs[0]) else { return "bad-case".to_string() };
+        match segs.len() {
+            1 => {
+                let mut b0 = b0;
+                serve!(b0)
+            }
+            2 => {
+                let Some(mut b1) = server_ops(b0.layer(tower_layer::Identity::new()), segs[1]) else { return "bad-case".to_string() };
+                serve!(b1)
+            }
+            3 => {
+                let Some(b1) = server_ops(b0.layer(tower_layer::Identity::new()), segs[1]) else { return "bad-case".to_string() };
+                let Some(mut b2) = server_ops(b1.layer(tower_layer::Identity::new()), segs[2]) else { return "bad-case".to_string() };
+                serve!(b2)
+            }
+            _ => return "bad-case".to_string(),
+        }
+        let Some(ep) = endpoint_ops(tonic::transport::Endpoint::from_static("http://[::]:50051"), &eops) else {
+            return "bad-case".to_string();
+        };
+        let mut cli = Some(cli);
+        let channel = match ep
+            .connect_with_connector(tower::service_fn(move |_: http::Uri| {
+                let c = cli.take();
+                async move { c.map(hyper_util::rt::TokioIo::new).ok_or_else(|| std::io::Error::other("used")) }
+            }))
+            .await
+        {
+            Ok(ch) => ch,
+            Err(_) => return "connect-failed".to_string(),
+        };
+        let mut grpc = tonic::client::Grpc::new(channel);
+        let fut = async {
+            if grpc.ready().await.is_err() {
+                return "not-ready".to_string();
+            }
+            let start = tokio::time::Instant::now();
+            let r = grpc.unary(req, "/verif.Sleep/Unary".parse().unwrap(), crate::c03::RawCodec).await;
+            let t = start.elapsed().as_nanos();
+            match r {
+                Ok(_) => format!("inner {}", t),
+                Err(st) => format!("timeout {} {} {}", st.code() as i32, hex(st.message().as_bytes()), t),
+            }
+        };
+        match tokio::time::timeout(HORIZON, fut).await {
+            Ok(o) => o,
+            Err(_) => "pending".to_string(),
+        }
+    })
+}
+
+/// Generator-side only: what `d` amounts to on the wire (used to keep cases away from the
+/// granularity of tokio's timer wheel, never for a verdict).
+fn on_wire(d: u128) -> u128 {
+    for (_, k) in UNITS {
+        if d / k <= 99_999_999 {
+            return d / k * k;
+        }
+    }
+    d
+}
+/// tokio's timers fire on whole milliseconds (deadlines are rounded up); two events inside the
+/// same millisecond are not ordered by their nanoseconds.
+fn same_tick(a: u128, b: u128) -> bool {
+    a != b && a.div_ceil(1_000_000) == b.div_ceil(1_000_000)
+}
+
+/// Generator-side only (never used for a verdict): the ns a well-formed value stands for.
+fn denote_for_filter(v: &[u8]) -> Option<u128> {
+    let (u, ds) = v.split_last()?;
+    let k = UNITS.iter().find(|(b, _)| b == u)?.1;
+    if ds.is_empty() || ds.len() > 8 || !ds.iter().all(|b| b.is_ascii_digit()) {
+        return None;
+    }
+    Some(std::str::from_utf8(ds).ok()?.parse::<u128>().ok()? * k)
+}
+
+fn raw_tok(vals: &[&[u8]]) -> String {
+    vals.iter().map(|v| hex(v)).collect::<Vec<_>>().join(",")
+}
+
+/// grpc-timeout values that are not spec-conformant (must be ignored) …
+const MALFORMED: [&[u8]; 17] = [
+    b"+5S", b"", b"123456789S", b"5s", b"5X", b"5", b"S", b" 5S", b"5 S", b"5S ", b"5S\t", b"-1S", b"5\xc3\xa9", b"\xff", b"1.5S",
+    b"0x5S", b"5SS",
+];
+/// … and conformant ones with what they denote (ns)
+const CONFORMANT: [(&[u8], u128); 5] =
+    [(b"5S", 5_000_000_000), (b"20m", 20_000_000), (b"00000020m", 20_000_000), (b"0n", 0), (b"20000u", 20_000_000)];
+
+pub fn gen_more(tier: &str, rng: &mut Rng) -> Vec<String> {
+    let thorough = tier == "thorough";
+    let mut out = Vec::new();
+    let ms = 1_000_000u128;
+    // ---- A3: encoder around 2^64 ns, 2^63 ns, u64::MAX s (beyond the range: the `expect` panics)
+    let p64 = 1u128 << 64;
+    for d in [p64, p64 - 1, p64 + 1, p64 - 100_000_000, p64 + 100_000_000, 1u128 << 63, (1u128 << 63) + 1, (1u128 << 32) * 1_000_000_000, u64::MAX as u128 * 1_000_000_000] {
+        out.push(format!("enc {}", d));
+    }
+    // ---- A4: set_timeout several times
+    for (a, b) in [(10_000 * ms, 1_000 * ms), (1_000 * ms, 10_000 * ms), (5, 7), (p64, 3), (3, p64), (1, 3_600_000_000_000 * 100), (20 * ms, 20 * ms)] {
+        out.push(format!("encs {} {}", a, b));
+    }
+    out.push(format!("encs {}", 20 * ms));
+    out.push("encs 1 2 3 4".to_string());
+    for _ in 0..(if thorough { 400 } else { 40 }) {
+        let n = rng.range(2, 4);
+        let ds: Vec<String> = (0..n)
+            .map(|_| {
+                let (_, k) = *rng.pick(&UNITS);
+                (rng.below(100_000_000) as u128 * k + rng.below(k as u64) as u128).to_string()
+            })
+            .collect();
+        out.push(format!("encs {}", ds.join(" ")));
+    }
+    // ---- A5: a stray byte after the unit / before the digits, every unit, every byte
+    for (u, _) in UNITS {
+        for b in 0u16..=255 {
+            let b = b as u8;
+            // bytes an HTTP header value cannot carry never reach the parser
+            if !((b >= 32 && b != 127) || b == 9) {
+                continue;
+            }
+            out.push(format!("parse {}", hex(&[b'7', u, b])));
+            out.push(format!("parse {}", hex(&[b, b'7', u])));
+        }
+    }
+    // ---- C1: caller durations that are NOT representable exactly (the wire carries less)
+    let mut inexact: Vec<u128> = vec![
+        100 * ms + 500,           // 100000u
+        1_000 * ms + 500,         // 1000000u   (reviewer's witness)
+        1_000 * ms + 999,
+        99_999 * ms + 999_999,    // 99999999u -> 99 999.999 ms: not a whole ms, only far latencies
+        100_000 * ms + 700_000,   // 100000m
+        100_000 * ms + 1,
+        200_000 * ms + 999_999,
+        100_000_000 * ms + 900 * ms, // 100000S
+    ];
+    for _ in 0..(if thorough { 60 } else { 6 }) {
+        inexact.push((100 + rng.below(900) as u128) * ms + rng.range(1, 999) as u128);
+        inexact.push((100_000 + rng.below(900_000) as u128) * ms + rng.range(1, 999_999) as u128);
+    }
+    for c in &inexact {
+        let w = on_wire(*c);
+        let mut lats = vec![w.saturating_sub(ms), w, w + 400, w + ms, *c, *c + ms, w / 2];
+        if *c > 100 {
+            lats.push(*c - 100);
+        }
+        lats.sort();
+        lats.dedup();
+        for l in lats {
+            if same_tick(w, l) {
+                continue;
+            }
+            out.push(format!("run {} none {}", c, l));
+            if w % ms == 0 && l % ms == 0 && l != w && w < 1_000_000 * ms {
+                out.push(format!("e2e {} none none {}", c, l));
+                out.push(format!("cli silent {} none {}", c, l));
+                out.push(format!("seq {} - - {}", c, l));
+            }
+        }
+        if w % ms == 0 && w < 3_000_000 * ms {
+            out.push(format!("cli silent {} none never", c));
+        }
+    }
+    // the reviewer's literal witness (w = 1 s < l: cut)
+    out.push("run 1000000500 none 1000000400".to_string());
+    // ---- A2: raw header values through the middleware / the stacks
+    let conf: Vec<Option<u128>> = vec![None, Some(20 * ms), Some(50 * ms)];
+    let lat_grid = |ds: &[u128]| -> Vec<u128> {
+        let mut l = vec![0, 5 * ms, 30 * ms, 7_000 * ms];
+        for d in ds {
+            if *d >= ms {
+                l.push(*d - ms);
+            }
+            l.push(*d + ms);
+        }
+        l.sort();
+        l.dedup();
+        l.into_iter().filter(|x| !ds.contains(x)).collect()
+    };
+    for v in MALFORMED {
+        for s in &conf {
+            for l in lat_grid(&s.iter().copied().collect::<Vec<_>>()) {
+                out.push(format!("run {} {} {}", raw_tok(&[v]), opt_tok(*s), l));
+            }
+        }
+        // through the real stacks: bare h2 client -> transport::Server; Channel -> bare h2 server; both tonic
+        for (s, l) in [(None, Some(5 * ms)), (None, None), (Some(20 * ms), Some(19 * ms)), (Some(20 * ms), Some(21 * ms)), (Some(20 * ms), None)] {
+            out.push(format!("srv {} {} {}", raw_tok(&[v]), opt_tok(s), lat_tok(l)));
+            out.push(format!("cli silent {} {} {}", raw_tok(&[v]), opt_tok(s), lat_tok(l)));
+            if let Some(l) = l {
+                out.push(format!("e2e {} {} none {}", raw_tok(&[v]), opt_tok(s), l));
+            }
+        }
+    }
+    for (v, d) in CONFORMANT {
+        for s in &conf {
+            let mut ds: Vec<u128> = s.iter().copied().collect();
+            ds.push(d);
+            for l in lat_grid(&ds) {
+                out.push(format!("run {} {} {}", raw_tok(&[v]), opt_tok(*s), l));
+            }
+        }
+        out.push(format!("srv {} none never", raw_tok(&[v])));
+        out.push(format!("cli routes {} none never", raw_tok(&[v])));
+    }
+    // several values in one header: malformed + conformant in both orders, two conformant in both orders
+    let dups: [[&[u8]; 2]; 8] =
+        [[b"+5S", b"20m"], [b"20m", b"+5S"], [b"20m", b"50m"], [b"50m", b"20m"], [b"", b"20m"], [b"20m", b""], [b"5X", b"+5S"], [b"20m", b"20m"]];
+    for d in dups {
+        for s in [None, Some(35 * ms)] {
+            for l in [5 * ms, 19 * ms, 21 * ms, 34 * ms, 36 * ms, 49 * ms, 51 * ms] {
+                out.push(format!("run {} {} {}", raw_tok(&d), opt_tok(s), l));
+            }
+        }
+        out.push(format!("srv {} none {}", raw_tok(&d), 30 * ms));
+        out.push(format!("srv {} none never", raw_tok(&d)));
+    }
+    if thorough {
+        // random visible-ASCII values
+        let alphabet: Vec<u8> = b"0123456789+- nHMSmuXx\t.".to_vec();
+        for _ in 0..1500 {
+            let n = rng.range(0, 5) as usize;
+            let mut v: Vec<u8> = (0..n).map(|_| *rng.pick(&alphabet)).collect();
+            if rng.chance(1, 2) {
+                v = format!("{}{}", rng.range(1, 60), *rng.pick(&[b'm', b'u', b'n', b'S']) as char).into_bytes();
+                if rng.chance(1, 2) {
+                    let at = rng.below(v.len() as u64 + 1) as usize;
+                    v.insert(at, *rng.pick(&alphabet));
+                }
+            }
+            let s = *rng.pick(&conf);
+            let l = (rng.below(70) as u128) * ms + ms / 2; // half-ms: never the instant of a whole-ms deadline
+            if !v.iter().all(|b| (*b >= 32 && *b != 127) || *b == 9) {
+                continue;
+            }
+            // a conformant sub-ms value (u/n units) and the latency may fall into one timer tick
+            if let Some(w) = denote_for_filter(&v) {
+                if w < l && same_tick(w, l) {
+                    continue;
+                }
+            }
+            out.push(format!("run {} {} {}", raw_tok(&[&v]), opt_tok(s), l));
+        }
+    }
+    // ---- A4: builder orders
+    let t = 20 * ms;
+    let server_seqs = [
+        format!("t{t}"),
+        format!("t{t},l"),
+        format!("l,t{t}"),
+        format!("t{t},l,l"),
+        format!("t{t},c,n,w,m,a,f,h,p,i"),
+        format!("c,n,w,m,t{t},a,f,h,p,i"),
+        format!("t{},t{t}", 1000 * ms),
+        format!("t{},t{}", t, 1000 * ms),
+        format!("t{},l,t{t}", 1000 * ms),
+        format!("t{t},c,l,n"),
+        "l".to_string(),
+        "c,l,n".to_string(),
+        "-".to_string(),
+    ];
+    for so in &server_seqs {
+        for l in [5 * ms, t - ms, t + ms, 999 * ms, 1001 * ms] {
+            out.push(format!("seq - {} - {}", so, l));
+        }
+    }
+    let endpoint_seqs = [
+        format!("t{t}"),
+        format!("t{t},k{}", ms),
+        format!("k{},t{t}", ms),
+        format!("k{}", ms),
+        format!("t{t},c,u,o,n,w,b,p,h,i"),
+        format!("c,u,o,n,w,t{t},b,p,h,i"),
+        format!("t{},t{t}", 1000 * ms),
+        format!("t{},t{}", t, 1000 * ms),
+        format!("t{t},k{}", 1000 * ms),
+        "c,u,o".to_string(),
+    ];
+    for eo in &endpoint_seqs {
+        for l in [5 * ms, t - ms, t + ms, 999 * ms, 1001 * ms] {
+            out.push(format!("seq - - {} {}", eo, l));
+        }
+    }
+    // set_timeout twice, second shorter / longer, alone and against configured timeouts
+    for (a, b) in [(10_000 * ms, 1_000 * ms), (1_000 * ms, 10_000 * ms), (20 * ms, 50 * ms), (50 * ms, 20 * ms)] {
+        for l in [b - ms, b + ms, a - ms, a + ms] {
+            if l == a || l == b {
+                continue;
+            }
+            out.push(format!("seq {},{} - - {}", a, b, l));
+            out.push(format!("seq {},{} t{},l k{},t{} {}", a, b, 30_000 * ms, ms, 30_000 * ms, l));
+        }
+    }
+    let nrand = if thorough { 400 } else { 30 };
+    for _ in 0..nrand {
+        let mut deadlines: Vec<u128> = Vec::new();
+        let seq = |rng: &mut Rng, server: bool, deadlines: &mut Vec<u128>| -> String {
+            let n = rng.below(5);
+            let mut layers = 0;
+            let mut last: Option<u128> = None;
+            let toks: Vec<String> = (0..n)
+                .map(|_| match rng.below(4) {
+                    0 => {
+                        let t = rng.range(2, 120) as u128 * ms;
+                        last = Some(t);
+                        format!("t{}", t)
+                    }
+                    1 if server && layers < 2 => {
+                        layers += 1;
+                        "l".to_string()
+                    }
+                    1 if !server => format!("k{}", rng.range(1, 120) as u128 * ms),
+                    _ => (*rng.pick(if server { &b"cnwmafhpi"[..] } else { &b"cuonwbphi"[..] }) as char).to_string(),
+                })
+                .collect();
+            deadlines.extend(last);
+            if toks.is_empty() {
+                "-".to_string()
+            } else {
+                toks.join(",")
+            }
+        };
+        let so = seq(rng, true, &mut deadlines);
+        let eo = seq(rng, false, &mut deadlines);
+        let nc = rng.below(3);
+        let cs: Vec<u128> = (0..nc).map(|_| rng.range(2, 120) as u128 * ms).collect();
+        deadlines.extend(cs.last().copied());
+        let l = match deadlines.iter().min() {
+            Some(m) if rng.chance(2, 3) => {
+                if rng.chance(1, 2) {
+                    m + rng.range(1, 3) as u128 * ms
+                } else {
+                    m - ms
+                }
+            }
+            _ => rng.range(0, 150) as u128 * ms,
+        };
+        if deadlines.contains(&l) {
+            continue;
+        }
+        let ctok = if cs.is_empty() { "-".to_string() } else { cs.iter().map(|c| c.to_string()).collect::<Vec<_>>().join(",") };
+        out.push(format!("seq {} {} {} {}", ctok, so, eo, l));
     }
     out
 }
